@@ -136,13 +136,18 @@ def truth(x32):
     return {"n": n, "mean": mean, "var": var, "skew": skew, "kurt": kurt, "min": x.min(0), "max": x.max(0), "const": const}
 
 
-def push(x32, parts, mode, nsamps):
+def push(x32, parts, mode, nsamps, strided=False):
     from sigpyproc.core.stats import ChannelStats
 
     st = ChannelStats(x32.shape[1], nsamps)
     t = 0
-    for p in parts:
-        st.push_data(np.ascontiguousarray(x32[t : t + p]).ravel(), t, mode=mode)
+    for j, p in enumerate(parts):
+        flat = np.ascontiguousarray(x32[t : t + p]).ravel()
+        if strided and j % 2 == 1:  # the same values handed over as a non-contiguous 1-D view
+            wide = np.zeros(flat.size * 2, dtype=flat.dtype)
+            wide[::2] = flat
+            flat = wide[::2]
+        st.push_data(flat, t, mode=mode)
         t += p
     return st
 
@@ -219,7 +224,9 @@ def execute(sc, ctx) -> None:
     parts = sc["chunks"]
     if all(p == 1 for p in parts) and n >= 2:
         ctx.probe("single-sample-chunks")
-    part = readout(push(x, parts, mode, n), mode)
+    part = readout(push(x, parts, mode, n, strided=bool(sc["dseed"] % 3 == 0)), mode)
+    if sc["dseed"] % 3 == 0 and len(parts) >= 2:
+        ctx.probe("strided-chunk")
     check("partition", part, tr, mode, sc, ctx)
     ctx.log("whole", [float(v) for v in whole["mean"]], "part", len(parts), [float(v) for v in part["mean"]])
     k = sc["k"]
@@ -239,8 +246,18 @@ def execute(sc, ctx) -> None:
             merged = a + b
             if k - (n - k) < 0:
                 ctx.probe("sign-change-of-count-difference")
+        before_a, before_b = a.moments.copy(), b.moments.copy()
         if merged.nsamps != n:
             raise Violation(f"C10/merge/nsamps/{mode}", f"{merged.nsamps} != {n}", {"api": "merge"})
         m = readout(merged, mode)
         check("merge", m, tr, mode, sc, ctx)
+        # adding two accumulators must leave both operands as they were (they may be merged again)
+        if a.moments.tobytes() != before_a.tobytes() or b.moments.tobytes() != before_b.tobytes():
+            raise Violation(f"C10/merge/operand-modified/{mode}", "a + b changed a or b", {"api": "merge"})
+        # ... and merging is repeatable: the same operands give the same sum again
+        again = readout((b + a) if sc["order"] == "ba" else (a + b), mode)
+        for kk in m:
+            if np.asarray(m[kk]).tobytes() != np.asarray(again[kk]).tobytes():
+                raise Violation(f"C10/merge/not-repeatable/{mode}", kk, {"api": "merge"})
+        ctx.probe("merge-repeated")
         ctx.log("merge", k, sc["order"], [float(v) for v in m["mean"]])
